@@ -472,6 +472,14 @@ class Data(object):
                         temp = input.obs
                     elif field == verif.field.Fcst():
                         temp = input.fcst
+                    elif isinstance(field, verif.field.Threshold):
+                        temp = input.threshold_scores[:, :, :, np.where(np.isclose(input.thresholds, field.threshold))[0][0]]
+                    elif isinstance(field, verif.field.Quantile):
+                        temp = input.quantile_scores[:, :, :, np.where(np.isclose(input.quantiles, field.quantile))[0][0]]
+                    elif field == verif.field.Pit():
+                        temp = input.pit
+                    elif isinstance(field, verif.field.Ensemble):
+                        temp = input.ensemble[:, :, :, field.member]
                     else:
                         temp = input.other_score(field.name())
 
